@@ -52,6 +52,9 @@ const SHAPES: &[(&str, &[&str])] = &[
     // restricted to one user family, spelled in another case than the family was registered with
     ("dibs", &["{DYNAMIC_TYPE:q:FamX} dibs"]),
     ("dday", &["{DATE:d} dday"]),
+    // a clock word inside the PATTERN: it is read when the rule is registered ("today" of the registration
+    // day), so the rule matches lines of that same day only - until it is registered again
+    ("due", &["{NUMBER:n} due today"]),
 ];
 
 fn shape_of(spec: &RuleSpec) -> Option<usize> {
@@ -69,7 +72,7 @@ fn gen_rule(r: &mut Rng, id: u32, rated: &[String]) -> RuleSpec {
         4 => if r.chance(1, 2) { ResultSpec::DurationSecs(60 * (1 + r.below(1000)) as i64) } else { ResultSpec::Percent((1 + r.below(99)) as f64) },
         6 => ResultSpec::NumberTimes { field: if r.chance(1, 2) { "a".into() } else { "b".into() }, k: (2 + r.below(7)) as f64 },
         7 => if r.chance(1, 2) { ResultSpec::NumberTimes { field: "n".into(), k: (2 + r.below(7)) as f64 } } else { ResultSpec::Number((100 + r.below(900)) as f64) },
-        8 | 9 | 10 => ResultSpec::Number((100 + r.below(900)) as f64),
+        8 | 9 | 10 | 11 => ResultSpec::Number((100 + r.below(900)) as f64),
         _ => ResultSpec::Money { amount: (1 + r.below(500)) as f64, code: r.pick(rated).clone() },
     };
     RuleSpec { id, name: format!("rule{}", r.below(5)), patterns: pats.iter().map(|s| s.to_string()).collect(), result, decline_num: if k == 6 { *r.pick(&[1u32, 2, 2, 3]) } else { *r.pick(&[0u32, 0, 1, 2, 4]) }, decline_den: 4, unwind_den: 0 }
@@ -101,6 +104,7 @@ fn gen_probe_lc(r: &mut Rng, k: usize) -> (String, bool) {
         8 => match r.below(4) { 0 => (format!("plonk {}", n), false), 1 => (format!("plonk {} minutes", 1 + n), true), _ => (format!("plonk {} hours", 1 + n), true) },
         9 => match r.below(5) { 0 => (format!("{} km dibs", m), false), 1 => (format!("{} {} dibs", m, unit_name("famy", r.usize(5))), false), _ => (format!("{} {} dibs", m, unit_name("famx", r.usize(5))), true) },
         10 => match r.below(4) { 0 => (format!("{} dday", n), false), _ => (format!("{}/{}/{} dday", 1 + r.below(28), 1 + r.below(12), 1950 + r.below(150)), true) },
+        11 => match r.below(5) { 0 => (format!("{} due tomorrow", n), false), _ => (format!("{} due today", n), true) },
         _ => match r.below(3) { 0 | 1 => (format!("{} snarf", n), true), _ => (format!("{} snarfx", n), false) },
     }
 }
@@ -376,9 +380,12 @@ impl Check for C18 {
         let mut p = World::new(&env.data, trace.salt, t0);
         // successful registrations in order, for rebuilding
         let mut type_history: Vec<AdminOp> = Vec::new();
+        // instant at which each live rule (by callback id) was registered: a fresh calculator is given the
+        // surviving registrations at those same instants
+        let mut reg_time: BTreeMap<u32, i128> = BTreeMap::new();
         // fixed sentinel probes for "rejected calls change nothing"
         let sentinels: Vec<(String, String)> = vec![
-            ("en".into(), "5 zork".into()), ("en".into(), "blip apple".into()), ("en".into(), "7 usd quux".into()), ("en".into(), "2 frob 3".into()), ("en".into(), "4 snarf".into()), ("en".into(), "6 wug 7".into()), ("en".into(), "çörk 8".into()), ("en".into(), "3 zork + 2 frob 5".into()),
+            ("en".into(), "5 zork".into()), ("en".into(), "blip apple".into()), ("en".into(), "7 usd quux".into()), ("en".into(), "2 frob 3".into()), ("en".into(), "4 snarf".into()), ("en".into(), "6 wug 7".into()), ("en".into(), "9 due today".into()), ("en".into(), "çörk 8".into()), ("en".into(), "3 zork + 2 frob 5".into()),
             ("en".into(), format!("7200 {} to {}", unit_name("famx", 3), unit_name("famx", 1))), ("en".into(), format!("7200 {} to {}", unit_name("famy", 0), unit_name("famy", 2))), ("tr".into(), "5 zork".into()),
         ];
 
@@ -402,6 +409,7 @@ impl Check for C18 {
                     let accepted = matches!(o, AdminObs::Bool(true));
                     rep.count(if accepted { op.kind() } else { "admin.rejected" });
                     if accepted {
+                        if let AdminOp::AddRule { rule, .. } = op { reg_time.insert(rule.id, ev.clock.base()); }
                         if matches!(op, AdminOp::AddType { .. } | AdminOp::AddTypeItem(_)) {
                             type_history.push(op.clone());
                             let _ = p.admin(op, &ev.clock);
@@ -495,7 +503,10 @@ impl Check for C18 {
                     // which pattern matches is decided by the operand's value: look at the line with the operand in place
                     let line = match &via_var { Some(lit) => lower.replacen("vv", &lit.to_lowercase(), 1), None => lower };
                     let kw = SHAPES.iter().position(|(k, _)| line.split(|c: char| !c.is_alphabetic()).any(|w| w == *k));
-                    let live: Vec<RuleSpec> = match kw { Some(k) => l.cfg.rules.get(lang).map(|v| v.iter().filter(|s| shape_of(s) == Some(k)).cloned().collect()).unwrap_or_default(), None => vec![] };
+                    // (shape "due": the pattern's "today" is the day of the registration - in English; in a Turkish pattern it is a plain word)
+                    let today = crate::clock::utc_days(ev.clock.base());
+                    let live: Vec<RuleSpec> = match kw { Some(k) => l.cfg.rules.get(lang).map(|v| v.iter().filter(|s| shape_of(s) == Some(k) && (k != 11 || lang != "en" || reg_time.get(&s.id).map(|t| crate::clock::utc_days(*t)) == Some(today))).cloned().collect()).unwrap_or_default(), None => vec![] };
+                    if kw == Some(11) && l.cfg.rules.get(lang).map(|v| v.iter().any(|s| shape_of(s) == Some(11))).unwrap_or(false) { rep.count(if live.is_empty() { "probe.pattern_today_is_another_day" } else { "probe.pattern_today_is_today" }); }
                     // the duration words of the probes are English: in another language "40 minutes" is no duration
                     let fields: Option<Vec<Vec<(String, Val)>>> = kw.filter(|k| !(*k == 8 && lang != "en")).and_then(|k| expected_fields(k, &line, &l)).map(|f| {
                         // through a variable the rule receives the variable itself, not its value
@@ -577,7 +588,9 @@ impl Check for C18 {
                     for (lang, list) in l.cfg.rules.iter() {
                         for spec in list.iter() {
                             let op = AdminOp::AddRule { lang: lang.clone(), rule: spec.clone() };
-                            let _ = f.admin(&op, &ev.clock);
+                            // registered at the instant of the original registration (a pattern may contain clock words)
+                            let when = ClockScript::Frozen { t: reg_time.get(&spec.id).cloned().unwrap_or(ev.clock.base()) };
+                            let _ = f.admin(&op, &when);
                             n_surv += 1;
                         }
                     }
@@ -704,6 +717,7 @@ fn expected_fields_plain(k: usize, line: &str) -> Option<Vec<(String, Val)>> {
         }
         6 => if words.len() == 3 && words[1] == "wug" { match (num(words[0]), num(words[2])) { (Some(a), Some(b)) => Some(vec![("a".to_string(), n(a)), ("b".to_string(), n(b))]), _ => None } } else { None },
         7 => if words.len() == 2 && words[0] == "çörk" { num(words[1]).map(|v| vec![("n".to_string(), n(v))]) } else { None },
+        11 => if words.len() == 3 && words[1] == "due" && words[2] == "today" { num(words[0]).map(|v| vec![("n".to_string(), n(v))]) } else { None },
         8 => if words.len() == 3 && words[0] == "plonk" { let len = match words[2] { "hours" | "hour" => 3600, "minutes" | "minute" => 60, _ => return None }; num(words[1]).map(|v| vec![("d".to_string(), Val::Dur { secs: v as i64 * len, nanos: 0 })]) } else { None },
         10 => if words.len() == 2 && words[1] == "dday" {
             let p: Vec<&str> = words[0].split('/').collect();
